@@ -243,8 +243,8 @@ def run(ctx):
     refuse = [r for r in rw.find("Return") if paths.is_const(rw, rw.ch(r)[0], -1) and paths.guarded(rw, r, lambda fn, cc, pol: paths.rel(fn, cc, pol, subst=False) == ("acmod->n_feat_alloc", "<", "acmod->output_frame"))]
     ctx.check(r5, len(refuse) == 1, key(rw, "refuse-wrapped"), rw.where(rw.root), "rewind of a wrapped (circular) feature buffer is not refused")
     nf = [s for s in paths.field_stores(rw, AREC, "n_feat_frame")]
-    ok = len(nf) == 1 and lin.poly(rw, nf[0]["rhs"], subst=False) == {("acmod->output_frame",): 1, ("acmod->n_feat_frame",): 1}
-    ctx.check(r5, ok, key(rw, "restore-count"), rw.where(nf[0]["node"]) if nf else rw.where(rw.root), "available frames after rewind are `%s`, expected frames consumed (output_frame) + frames still available (n_feat_frame)" % (rw.canon(nf[0]["rhs"], subst=False) if nf else "?"))
+    ok = len(nf) == 1 and lin.new_value(rw, nf[0]) == {("acmod->output_frame",): 1, ("acmod->n_feat_frame",): 1}
+    ctx.check(r5, ok, key(rw, "restore-count"), rw.where(nf[0]["node"]) if nf else rw.where(rw.root), "available frames after rewind are `%s`, expected frames consumed (output_frame) + frames still available (n_feat_frame)" % (lin.p_str(lin.new_value(rw, nf[0])) if nf else "?"))
     rs = {s["path"]: rw.canon(s["rhs"], subst=False) for s in paths.stores(rw) if s["path"] != "acmod->n_feat_frame"}
     ctx.check(r5, rs == {"acmod->feat_outidx": "0", "acmod->output_frame": "0", "acmod->senscr_frame": "-1", "acmod->mgau->frame_idx": "0"}, key(rw, "reset-output"), rw.where(rw.root), "output position is reset as %s" % rs)
     if nf:
